@@ -164,6 +164,9 @@ fn c11(seed: u64, thorough: bool) -> Scenario {
             if g.rng.chance(1, 4) {
                 // globs are case-sensitive: these select nothing
                 g.world.args.globs = vec!["**/*.PY".into(), "**/*.Rb".into()];
+            } else if g.rng.chance(1, 3) {
+                // one argument, two alternatives: the comma belongs to the glob
+                g.world.args.globs = vec!["**/*.{py,rb}".into()];
             }
         }
         tags.push("diff".to_string());
@@ -480,7 +483,19 @@ fn c13(seed: u64, thorough: bool) -> Scenario {
     maybe_big(&mut cfg, g.rng, &mut big_tags);
     g.gen_files(&cfg);
     let kind = *g.rng.pick(MALFORMATIONS);
-    let (block, carrier) = malformed_block(&mut g, kind);
+    let (mut block, carrier) = malformed_block(&mut g, kind);
+    // the malformed rule on an empty block whose two tags share one comment
+    if matches!(
+        kind,
+        "sort-direction" | "sort-format" | "line-count" | "lua-empty-path" | "lua-script-missing" | "lua-script-directory"
+            | "lua-script-not-utf8" | "lua-script-empty" | "ai-empty-condition" | "ai-missing-key" | "ai-empty-key"
+    ) && g.rng.chance(1, 6)
+    {
+        block.lines.clear();
+        block.tail.clear();
+        block.children.clear();
+        block.one_comment = true;
+    }
     let malformed_attrs = block.attrs.clone();
     // place it
     let nfiles = g.world.files.len();
@@ -510,6 +525,7 @@ fn c13(seed: u64, thorough: bool) -> Scenario {
             lines: if g.rng.chance(1, 2) { vec!["omega".into()] } else { vec![] },
             children: vec![block],
             tail: vec![],
+            one_comment: false,
         }
     } else {
         block
@@ -714,6 +730,7 @@ fn mask_malformed(w: &mut World) {
                         lines: b.lines.clone(),
                         children: vec![],
                         tail: b.tail.clone(),
+                        one_comment: b.one_comment,
                     }],
                     diff: FileDiff::Added,
                     ..Default::default()
@@ -1007,6 +1024,7 @@ fn c15(seed: u64, thorough: bool) -> Scenario {
             9 if comps.len() > 1 && comps[comps.len() - 2].contains('.') => {
                 format!("*.{}", comps[comps.len() - 2].rsplit('.').next().unwrap())
             }
+            0 if g.rng.chance(1, 4) => format!("**/*.{{{ext},zz}}"),
             0 => format!("**/*.{ext}"),
             1 if comps.len() > 1 => format!("{}/**", comps[0]),
             2 if comps.len() > 2 => format!("{}/{}/**", comps[0], comps[1]),
